@@ -45,7 +45,13 @@ pub fn c19(s: &mut Sess, rng: &mut Rng, n: u64) {
             }
             let after = s.op("dump");
             if after != before { s.out.oracle_fail(format!("C19: directory changed across a rejected open: {before} → {after}")); }
-        } else if r.starts_with("ok") { s.op("close"); s.op("trace"); }
+        } else if r.starts_with("ok") {
+            // a legal reopen (possibly with the other pre-create flag): the store must work as before
+            if s.op("put 79 =7979") != "ok" { s.out.oracle_fail("C19: put after a legal reopen with another pre_create_cas_dirs flag failed".into()); }
+            s.op("get 79");
+            s.op("remove 79");
+            s.op("close"); s.op("trace");
+        }
         // wrong format version
         let ver = *rng.pick(&[0u64, 3, 5, 4_294_967_295, 4]);
         s.op(&format!("setsettings {ver} {} {n1}", pre as u8));
@@ -249,5 +255,76 @@ pub fn c08(s: &mut Sess, rng: &mut Rng, n: u64) {
         s.op("iter");
         s.op("close");
         s.op("tracedrop");
+    }
+}
+
+/// C10 at log level: real stores (snapshot + several segments), every/sampled truncation offset
+/// and single-byte change in the checksum/payload of every UNCHECKPOINTED record, through Cas::open.
+pub fn c10log(s: &mut Sess, rng: &mut Rng, n: u64, thorough: bool) {
+    for _ in 0..n {
+        let n_wal = *rng.pick(&[2u64, 3, 5, 10_000]);
+        s.begin_case(&format!("cfg kind=bytes n={n_wal} sync=1 pre=0"));
+        if !s.op("open").starts_with("ok") { continue; }
+        let mut states: Vec<String> = vec![s.op("iter")];
+        let mut step = |s: &mut Sess, l: String, states: &mut Vec<String>| { s.op(&l); states.push(s.op("iter")); };
+        for i in 0..rng.range(1, 4) { step(s, format!("put {} ={}", hx(&[b'a' + (i % 3) as u8]), hx(&[b'x' + rng.below(3) as u8; 3])), &mut states); }
+        // make a snapshot exist (explicit checkpoint, or restart which checkpoints after replay) — or not
+        match rng.below(3) { 0 => { s.op("checkpoint"); } 1 => { s.op("close"); s.op("open"); } _ => {} }
+        for i in 0..rng.range(1, 5) {
+            let k = [b'a' + rng.below(3) as u8];
+            let l = if rng.chance(1, 4) { format!("remove {}", hx(&k)) } else { format!("put {} ={}", hx(&k), hx(&vec![b'p' + (i % 5) as u8; 1 + rng.below(6) as usize])) };
+            step(s, l, &mut states);
+        }
+        s.op("close");
+        s.op("tracedrop");
+        s.op("snapshot");
+        // locate the uncheckpointed records in the real segment files
+        let snap_ver = std::fs::read(s.dir.join("index")).ok().filter(|b| b.len() >= 8).map_or(0, |b| u64::from_le_bytes(b[..8].try_into().unwrap()));
+        let mut segs: Vec<(u64, Vec<u8>)> = Vec::new();
+        if let Ok(rd) = std::fs::read_dir(&s.dir) {
+            for e in rd.flatten() {
+                let nme = e.file_name().to_string_lossy().into_owned();
+                if let Some(id) = nme.strip_suffix("_index.wal").and_then(|x| x.parse::<u64>().ok()) { segs.push((id, std::fs::read(e.path()).unwrap_or_default())); }
+            }
+        }
+        segs.sort();
+        let mut targets: Vec<(u64, usize)> = Vec::new(); // (segment, byte offset) inside checksum/payload of uncheckpointed records
+        for (id, bytes) in &segs {
+            let mut off = 0usize;
+            while off + 44 <= bytes.len() {
+                let ver = u64::from_le_bytes(bytes[off..off + 8].try_into().unwrap());
+                let len = u32::from_le_bytes(bytes[off + 40..off + 44].try_into().unwrap()) as usize;
+                if ver == 0 || len == 0 || off + 44 + len > bytes.len() { break; }
+                if ver > snap_ver { for o in off + 8..off + 40 { targets.push((*id, o)); } for o in off + 44..off + 44 + len { targets.push((*id, o)); } }
+                off += 44 + len;
+            }
+        }
+        s.out.add("c10log.damageable-bytes", targets.len() as u64);
+        let picks: Vec<(u64, usize)> = if thorough || targets.len() <= 24 { targets.clone() } else { (0..24).map(|_| targets[rng.below(targets.len() as u64) as usize]).collect() };
+        let mut judge = |s: &mut Sess, what: String| {
+            let r = s.op("open");
+            if r.starts_with("ok") {
+                let got = s.op("iter");
+                if !states.contains(&got) { s.out.oracle_fail(format!("C10: {what}: open succeeded with `{got}`, which is not the state after any prefix of the logged operations")); }
+                s.out.count("c10log.accepted-as-prefix");
+                s.op("close");
+            } else if r.starts_with("err") { s.out.count("c10log.rejected"); }
+            else { s.out.oracle_fail(format!("C10: {what}: open → `{r}`")); }
+            s.op("tracedrop");
+            s.op("restore");
+        };
+        for (id, off) in picks {
+            s.op(&format!("damage seg:{id} {off} {}", 1u8 << rng.below(8)));
+            judge(s, format!("byte {off} of segment {id} changed"));
+        }
+        // truncation of the log at an offset of some segment (later segments absent)
+        for _ in 0..(if thorough { 40 } else { 8 }) {
+            if segs.is_empty() { break; }
+            let (id, bytes) = &segs[rng.below(segs.len() as u64) as usize];
+            if bytes.is_empty() { continue; }
+            let cut = rng.below(bytes.len() as u64);
+            s.op(&format!("truncseg {id} {cut}"));
+            judge(s, format!("log cut at byte {cut} of segment {id}"));
+        }
     }
 }
